@@ -113,6 +113,13 @@ claim("C18", "exploration",
       "Trusted: the reference evaluator and pattern matcher in incrate/c18_access.rs; openssl for producing signatures. Every entity is in the default partition (the plugin API has no partitions). Topic-kind queries are asserted only when the read and write flags of the topic rule agree. Validity windows are decades away from the wall clock.",
       "DESIGN.md section 2, C18")
 
+claim("C19", "exploration",
+      "fault-injection property-based testing with a metamorphic recovery oracle: a genuine three-message handshake between real AuthenticationBuiltin instances with one generated fault spliced in at a generated point, followed by the genuine message that was due",
+      "Identities: the shipped participant certificate, a second one issued in-process by the shipped Identity CA key, and one issued by a foreign CA of the same name. Faults: every token field (c.id c.perm c.pdata c.dsign_algo c.kagree_algo hash_c1 dh1 challenge1 hash_c2 dh2 challenge2 signature, class id) with one byte flipped / truncated / emptied / removed / replaced by the value of another run; the whole message of another run; another message out of order; the corresponding message of the foreign-CA identity; a request claiming a GUID not derived from the certificate; delivered before the request, the reply or the final message is processed, or after completion. "
+      "Violation: the fault-free run fails or the secrets differ; a bad message makes the side that processed it return Ok / OkFinalMessage or hold a shared secret; after a rejected bad message the genuine message no longer completes the handshake with equal secrets; a bad message changes or erases the secret of a completed handshake.",
+      "Trusted: ring / openssl; alterations are single-field, not adaptive forgeries. A request is unauthenticated by design: a self-consistent bad request may be taken as a request (it must not complete on that side); that it then blocks the genuine request is the listed known finding.",
+      "DESIGN.md section 2, C19")
+
 claim("C02", "exploration",
       "fault-injection property-based testing: generated fault plans (drop / duplicate / delay per datagram) over a bounded run of a real Writer and 1-2 real Readers, followed by fault-free rounds; liveness decided as a fixpoint test on a projection of the protocol state, plus a quietness check",
       "A generated fault plan decides the fate of every datagram (DATA, DATAFRAG, HEARTBEAT, GAP, ACKNACK, NACKFRAG) exchanged between a real reliable Writer and real reliable Readers during generated writes / heartbeat ticks / timer steps / cache cleanings. Then faults stop and rounds {heartbeat tick, deliver all, fire timers to quiescence} run. "
